@@ -208,6 +208,16 @@ class DocGen:
         if k == "scalar":
             # custom scalars built from SDL accept every literal without variables (a2b8a10): also null, lists, objects
             r = rng.random()
+            if not const and self.scope_stack and r < 0.12:
+                # a VARIABLE inside a structured literal at a custom scalar (hunt3 C06/1): it is a usage (5.8.3 / 5.8.4),
+                # the position has no type (anything is allowed there), and the literal is accepted
+                self.nvar += 1
+                n = "v%d" % self.nvar
+                self.vars[n] = {"type": rng.choice([("named", "Int"), ("named", b), ("list", ("named", "String"))]), "default": None}
+                self.scope_stack[-1]["vars"].add(n)
+                inner = ("var", n)
+                return rng.choice([("obj", [("a", inner)]), ("list", [inner]), ("obj", [("a", ("list", [("int", "1"), inner]))]),
+                                   ("list", [("obj", [("b", inner)])])])
             if r < 0.25:
                 return ("obj", [("k%d" % i, rng.choice([("int", "1"), ("str", "s"), ("null",), ("list", [("int", "2")]),
                                                         ("obj", [("n", ("bool", True))])])) for i in range(rng.randint(0, 3))])
